@@ -447,7 +447,9 @@ def handle : List Sexp → Option String
       let d ← hexArg hex
       let ns ← natsOf sizes
       let chunks := splitSizes d ns
-      let outs := runSchedAll k Generated.defaultBufferSize [] chunks (streamP cfg d.length) {}
+      -- a BytesIO holds everything from the start; the other kinds start empty and are fed the chunks
+      let outs := if k = .bytesIO then runSchedAll k Generated.defaultBufferSize d [] (streamP cfg d.length) {}
+                  else runSchedAll k Generated.defaultBufferSize [] chunks (streamP cfg d.length) {}
       some ("ok " ++ " ".intercalate (traceTokens [] outs))
   | .atom "WRAP" :: .atom hex :: .atom count :: ops => do
       let d := repeatBytes (← hexArg hex) (← count.toNat?)
